@@ -49,6 +49,17 @@ structure GetSite where
   initPos : List String
   deriving DecidableEq, Repr, Inhabited
 
+/-- one `pool.Put(x)` site: the loops around it (outermost first) and whether it lies in the release
+tail of its function (trailing top-level statements that only Put, before the final return) -/
+structure PutSite where
+  pool : String
+  fn : String
+  pos : String
+  arg : String
+  loops : List String
+  inTail : Bool
+  deriving DecidableEq, Repr, Inhabited
+
 /-! ## Discipline of one variable (decidable; evaluated over the whole extracted table) -/
 
 def Site.inOnce (o : String) (s : Site) : Bool := s.sync == .once o
@@ -81,10 +92,11 @@ def VarFact.lockDisciplined (v : VarFact) : Bool :=
 
 /-- every access is a sync/atomic operation -/
 def VarFact.atomicDisciplined (v : VarFact) : Bool :=
-  !v.writes.isEmpty && v.writes.all (·.sync == .atomic) && v.reads.all (·.sync == .atomic)
+  !(v.writes ++ v.reads).isEmpty && v.writes.all (·.sync == .atomic) && v.reads.all (·.sync == .atomic)
 
 /-- never written (nor address-taken) outside initialisation -/
-def VarFact.readOnly (v : VarFact) : Bool := v.writes.isEmpty && v.addrs.isEmpty
+def VarFact.readOnly (v : VarFact) : Bool :=
+  v.writes.isEmpty && v.addrs.isEmpty && v.reads.all (·.sync != .atomic)
 
 def VarFact.disciplined (v : VarFact) : Bool :=
   v.readOnly || (v.addrs.isEmpty && (v.onceDisciplined || v.lockDisciplined || v.atomicDisciplined))
